@@ -11,6 +11,7 @@ import (
 	"time"
 
 	connect "github.com/bufbuild/connect-go"
+	"google.golang.org/protobuf/proto"
 	"google.golang.org/protobuf/types/known/anypb"
 	"google.golang.org/protobuf/types/known/wrapperspb"
 	"verif.local/harness/ev"
@@ -49,8 +50,23 @@ func c19Values() []c19Value {
 		{"pointer", ptr},
 		{"error-wrapping-sentinel", fmt.Errorf("context: %w", http.ErrAbortHandler)},
 		{"error-Is-sentinel", isAbortErr{}},
+		{"typed-nil-pointer", (*c19Struct)(nil)},
+		{"map", map[string]int{"a": 1}},
+		{"byte-slice", []byte{0, 1, 2}},
+		{"runtime-error", c19RuntimeError()},
+		{"bool-false", false},
+		{"empty-string", ""},
 		{"sentinel", http.ErrAbortHandler},
 	}
+}
+
+// c19RuntimeError is a genuine runtime.Error value (a nil-map write caught
+// once), so that handlers can panic with what real bugs panic with.
+func c19RuntimeError() (r any) {
+	defer func() { r = recover() }()
+	var m map[string]int
+	m["x"] = 1
+	return nil
 }
 
 // c19Recorder is the recovery function under test plus its call log.
@@ -177,7 +193,7 @@ func c19Program(kind svc.Kind, point string, v *c19Value) (*svc.Program, []*gen.
 }
 
 func c19(run *ev.Run) int {
-	run.SetRule("cases = panic values {nil, error, *connect.Error, wrapped *connect.Error, string, int, struct, pointer, error wrapping the abort sentinel, error whose Is matches it, the sentinel itself} x 4 kinds x 3 protocols x panic point {before first receive, between sends, after last send} x 12 placements of WithRecover among other interceptors/option groups x {in-memory loopback, real HTTP/1.1 and HTTP/2 servers}; sentinel cases run ServeHTTP directly under recover(); plus non-panicking calls with and without WithRecover (differential); exhaustive in this bound; distinct by (value, kind, protocol, point, placement, transport)")
+	run.SetRule("cases = panic values {nil, error, *connect.Error, wrapped *connect.Error, string, int, struct, pointer, error wrapping the abort sentinel, error whose Is matches it, the sentinel itself} x 4 kinds x 3 protocols x panic point {before first receive, between sends, after last send} x 12 placements of WithRecover among other interceptors/option groups x {in-memory loopback; real HTTP/1.1 and HTTP/2 servers (quick: one placement, thorough: all 12)}; what the recovery function returns {coded error with details and metadata, plain error, wrapped coded error, each of the 16 codes} compared with the same error returned by a non-panicking handler; concurrent phase: G goroutines x K calls on shared handlers (real HTTP/2 + HTTP/1.1), every panic value unique, one in three calls not panicking, oracle = multiset of recovered values equals multiset of panics and every client sees the error built from its own value; sentinel cases run ServeHTTP directly under recover(); plus non-panicking calls with and without WithRecover (differential); exhaustive in this bound; distinct by (value, kind, protocol, point, placement, transport)")
 	values := c19Values()
 	layouts := c19Layouts()
 	points := []string{"start", "mid", "end"}
@@ -257,7 +273,9 @@ func c19(run *ev.Run) int {
 		}
 	})
 	c19Real(run, values)
-	return run.Finish("panics.recovered", "sentinel.reraised", "non_panicking.compared", "real.calls")
+	c19Returns(run)
+	c19Concurrent(run)
+	return run.Finish("panics.recovered", "sentinel.reraised", "non_panicking.compared", "real.calls", "returns.compared", "concurrent.panics")
 }
 
 func sameValue(a, b any) bool {
@@ -340,8 +358,18 @@ func c19Sentinel(run *ev.Run, reg *svc.Registry, h *connect.Handler, rec *c19Rec
 }
 
 func c19Real(run *ev.Run, values []c19Value) {
+	layouts := []string{"x,recover,y"}
+	if !run.Quick() {
+		layouts = c19Layouts()
+	}
+	for _, l := range layouts {
+		c19RealLayout(run, values, l)
+	}
+}
+
+func c19RealLayout(run *ev.Run, values []c19Value, layout string) {
 	rec := &c19Recorder{}
-	srv := svc.NewServer(connect.WithInterceptors(noopIcept{}), connect.WithRecover(rec.handle))
+	srv := svc.NewServer(c19Opts(layout, rec)...)
 	defer srv.Close()
 	for _, h2 := range []bool{false, true} {
 		for _, protocol := range svc.Protocols {
@@ -356,7 +384,7 @@ func c19Real(run *ev.Run, values []c19Value) {
 						if v.name == "sentinel" {
 							continue
 						}
-						key := fmt.Sprintf("c19/real/h2=%v/%s/%s/%s/%s", h2, protocol, kind, point, v.name)
+						key := fmt.Sprintf("c19/real/%s/h2=%v/%s/%s/%s/%s", layout, h2, protocol, kind, point, v.name)
 						if !run.Want(key) {
 							continue
 						}
@@ -367,12 +395,12 @@ func c19Real(run *ev.Run, values []c19Value) {
 						srv.Reg.Drop(call)
 						cs.Tap.Forget(call.ID)
 						run.Count("real.calls", 1)
-						run.Eval(fmt.Sprintf("real|h2=%v|%s|%s|%s|%s", h2, protocol, kind, point, v.name))
+						run.Eval(fmt.Sprintf("real|%s|h2=%v|%s|%s|%s|%s", layout, h2, protocol, kind, point, v.name))
 						if !ok {
 							run.Violation(key+"/hang", "call did not return", trunc(dump, 20000))
 							continue
 						}
-						c19Judge(run, key, rec.take(), v, cl, sent, map[string]any{"transport": fmt.Sprintf("real h2=%v", h2), "protocol": protocol, "kind": kind.String(), "point": point, "value": v.name})
+						c19Judge(run, key, rec.take(), v, cl, sent, map[string]any{"layout": layout, "transport": fmt.Sprintf("real h2=%v", h2), "protocol": protocol, "kind": kind.String(), "point": point, "value": v.name})
 					}
 				}
 			}
@@ -381,4 +409,219 @@ func c19Real(run *ev.Run, values []c19Value) {
 	if n, lines := srv.ServerPanics(); n > 0 {
 		run.Violation("c19/real/server-panic", fmt.Sprintf("%d panics escaped WithRecover on the real server", n), lines)
 	}
+}
+
+// c19Returns: "the client receives the error that function returned" for
+// other shapes of returned error. The oracle is differential: a handler that
+// returns the same error without panicking must look the same to the client.
+func c19Returns(run *ev.Run) {
+	type ret struct {
+		name string
+		mk   func() error
+	}
+	var rets []ret
+	for c := connect.CodeCanceled; c <= connect.CodeUnauthenticated; c++ {
+		c := c
+		rets = append(rets, ret{"code-" + c.String(), func() error {
+			e := connect.NewError(c, errors.New("from recover: "+c.String()))
+			e.Meta().Set("X-Recovered", "yes")
+			e.Meta().Add("X-Recovered-Bin", connect.EncodeBinaryHeader([]byte{0, 255, 7}))
+			if d, err := anypb.New(wrapperspb.String("d-" + c.String())); err == nil {
+				e.AddDetail(d)
+			}
+			return e
+		}})
+	}
+	rets = append(rets,
+		ret{"plain-error", func() error { return errors.New("a plain error from the recovery function") }},
+		ret{"wrapped-coded", func() error {
+			return fmt.Errorf("outer: %w", connect.NewError(connect.CodeFailedPrecondition, errors.New("inner coded")))
+		}},
+		ret{"empty-message", func() error { return connect.NewError(connect.CodeInternal, errors.New("")) }},
+	)
+	for _, protocol := range svc.Protocols {
+		for _, kind := range svc.Kinds {
+			for _, point := range []string{"start", "mid", "end"} {
+				for _, rt := range rets {
+					key := fmt.Sprintf("c19/returns/%s/%s/%s/%s", protocol, kind, point, rt.name)
+					if !run.Want(key) {
+						continue
+					}
+					rt := rt
+					calls := 0
+					var mu sync.Mutex
+					rc := connect.WithRecover(func(context.Context, connect.Spec, http.Header, any) error {
+						mu.Lock()
+						calls++
+						mu.Unlock()
+						return rt.mk()
+					})
+					reg := svc.NewRegistry()
+					cs := svc.NewClientSet(&wire.Loopback{Handler: svc.Mux(svc.Handlers(reg, rc))}, "http://verif.local", svc.ProtoOpts(protocol, "proto")...)
+					v := c19Value{"string", "boom"}
+					prog, sent := c19Program(kind, point, &v)
+					call := reg.New("c19t", prog)
+					var cl, cl0 *svc.CLog
+					ok, dump := watchdog(30*time.Second, func() { cl = cs.Do(context.Background(), kind, call.ID, nil, []*gen.Msg{{Id: 1}}) })
+					reg.Drop(call)
+					run.Eval("returns|" + protocol + "|" + kind.String() + "|" + point + "|" + rt.name)
+					run.Count("returns.compared", 1)
+					if !ok {
+						run.Violation(key+"/hang", "call did not return", trunc(dump, 20000))
+						continue
+					}
+					// reference: same program, the panic step replaced by returning the error
+					reg0 := svc.NewRegistry()
+					cs0 := svc.NewClientSet(&wire.Loopback{Handler: svc.Mux(svc.Handlers(reg0))}, "http://verif.local", svc.ProtoOpts(protocol, "proto")...)
+					prog0, _ := c19Program(kind, point, &v)
+					for i := range prog0.Steps {
+						if prog0.Steps[i].Op == "panic" {
+							prog0.Steps = prog0.Steps[:i]
+							break
+						}
+					}
+					prog0.Return = rt.mk()
+					call0 := reg0.New("c19t0", prog0)
+					cl0 = cs0.Do(context.Background(), kind, call0.ID, nil, []*gen.Msg{{Id: 1}})
+					reg0.Drop(call0)
+					detail := map[string]any{"protocol": protocol, "kind": kind.String(), "point": point, "returned": rt.name, "recover_calls": calls}
+					if calls != 1 {
+						run.Violation(key+"/calls", fmt.Sprintf("recovery function called %d times for one panic", calls), detail)
+						continue
+					}
+					a, b := c19Outcome(cl), c19Outcome(cl0)
+					if a != b {
+						detail["with_panic"], detail["returned_directly"] = a, b
+						run.Violation(key+"/differs", "the client does not receive the error the recovery function returned (it differs from the same error returned by a handler that did not panic)", detail)
+						continue
+					}
+					if same, why := gen.SameSeq(cl.Msgs, sent); !same {
+						run.Violation(key+"/messages", "messages sent before the panic were not delivered before the error: "+why, detail)
+					}
+				}
+			}
+		}
+	}
+}
+
+// c19Concurrent: shared handlers, many goroutines, every panic value unique.
+func c19Concurrent(run *ev.Run) {
+	G, K := 8, 24
+	if !run.Quick() {
+		G, K = 64, 800
+	}
+	if run.Replaying() && !run.Want("c19/concurrent") {
+		return
+	}
+	var mu sync.Mutex
+	recovered := map[string]int{}
+	rc := connect.WithRecover(func(_ context.Context, _ connect.Spec, _ http.Header, v any) error {
+		s, _ := v.(string)
+		mu.Lock()
+		recovered[s]++
+		mu.Unlock()
+		return connect.NewError(connect.CodeDataLoss, errors.New("recovered "+s))
+	})
+	srv := svc.NewServer(connect.WithInterceptors(noopIcept{}), rc)
+	defer srv.Close()
+	type res struct {
+		key, want, got string
+		panics         bool
+	}
+	results := make([][]res, G)
+	var wg sync.WaitGroup
+	for g := 0; g < G; g++ {
+		wg.Add(1)
+		go func(g int) {
+			defer wg.Done()
+			rng := run.Rand(fmt.Sprintf("c19/concurrent/%d", g))
+			h2 := g%2 == 0
+			sets := map[string]*svc.ClientSet{}
+			for _, p := range svc.Protocols {
+				sets[p] = srv.RawClients(h2, svc.ProtoOpts(p, "proto")...)
+			}
+			for k := 0; k < K; k++ {
+				protocol := svc.Protocols[rng.Intn(len(svc.Protocols))]
+				kind := svc.Kinds[rng.Intn(len(svc.Kinds))]
+				if kind == svc.Bidi && !h2 {
+					kind = svc.ServerStream
+				}
+				point := []string{"start", "mid", "end"}[rng.Intn(3)]
+				id := fmt.Sprintf("pv-%d-%d", g, k)
+				panics := rng.Intn(3) != 0
+				var v *c19Value
+				if panics {
+					v = &c19Value{"string", id}
+				}
+				prog, _ := c19Program(kind, point, v)
+				call := srv.Reg.New("c19c", prog)
+				var cl *svc.CLog
+				ok, _ := watchdog(60*time.Second, func() { cl = sets[protocol].Do(context.Background(), kind, call.ID, nil, []*gen.Msg{{Id: 1}}) })
+				srv.Reg.Drop(call)
+				r := res{key: fmt.Sprintf("c19/concurrent/%d/%d/%s/%s/%s", g, k, protocol, kind, point), panics: panics}
+				if panics {
+					r.want = "data_loss: recovered " + id
+				}
+				if !ok {
+					r.got = "<hang>"
+				} else {
+					if cl.Err != nil {
+						r.got = errStr(cl.Err)
+					}
+				}
+				results[g] = append(results[g], r)
+			}
+		}(g)
+	}
+	wg.Wait()
+	total, npanics := 0, 0
+	for g := range results {
+		for _, r := range results[g] {
+			total++
+			run.Eval("concurrent|" + r.key[len("c19/concurrent/"):])
+			if r.panics {
+				npanics++
+			}
+			if r.got != r.want {
+				run.Violation(r.key, fmt.Sprintf("concurrent call: client saw %q, want %q (the error built from this call's own panic value, or success when it did not panic)", r.got, r.want), map[string]any{"panicked": r.panics})
+			}
+		}
+	}
+	run.Count("concurrent.panics", int64(npanics))
+	run.Count("concurrent.calls", int64(total))
+	mu.Lock()
+	defer mu.Unlock()
+	for g := range results {
+		for i, r := range results[g] {
+			id := fmt.Sprintf("pv-%d-%d", g, i)
+			n := recovered[id]
+			want := 0
+			if r.panics {
+				want = 1
+			}
+			if n != want {
+				run.Violation(r.key+"/recover-calls", fmt.Sprintf("recovery function called %d times with value %q, want %d", n, id, want), nil)
+			}
+			delete(recovered, id)
+		}
+	}
+	for v, n := range recovered {
+		run.Violation("c19/concurrent/stray", fmt.Sprintf("recovery function called %d times with a value no handler panicked with: %q", n, v), nil)
+	}
+	if n, lines := srv.ServerPanics(); n > 0 {
+		run.Violation("c19/concurrent/server-panic", fmt.Sprintf("%d panics escaped WithRecover on the real server", n), lines)
+	}
+}
+
+func c19Outcome(l *svc.CLog) string {
+	s := clientOutcome(l, true)
+	var ce *connect.Error
+	if errors.As(l.Err, &ce) {
+		s += " meta=" + hdrString(ce.Meta())
+		for _, d := range ce.Details() {
+			b, _ := proto.Marshal(d)
+			s += fmt.Sprintf(" detail=%s:%x", d.MessageName(), b)
+		}
+	}
+	return s
 }
